@@ -22,6 +22,44 @@ def build_note(d):
                 player=d["p"], keysound_index=None if d["k"] < 0 else d["k"])
 
 
+def read_notes(nd, mode):
+    """all notes of a NoteData object, after one of several ITERATION HISTORIES on the same object
+    (an abandoned first iteration, a peek, two iterators running against each other, a repeated read):
+    whatever an earlier iteration leaves behind must not change what a full iteration yields.
+    -> (notes, consistent)"""
+    import itertools
+    mode = mode % 6
+    ok = True
+    if mode == 1:
+        next(iter(nd), None)                     # a peek; the iterator is dropped
+    elif mode == 2:
+        for k, _ in enumerate(nd):               # an abandoned loop
+            if k >= 2:
+                break
+    elif mode == 3:
+        any(False for _ in itertools.islice(nd, 1))
+        first = list(itertools.islice(nd, 3))
+        ok = first == list(nd)[:3]
+    elif mode == 4:
+        it1 = iter(nd)                           # a second iterator overtakes the first
+        head = list(itertools.islice(it1, 1))
+        full = list(nd)
+        ok = head + list(it1) == full
+    elif mode == 5:
+        pairs = list(zip(nd, itertools.islice(nd, 1, None)))
+        full = list(nd)
+        ok = pairs == list(zip(full, full[1:]))
+    notes = list(nd)
+    if mode in (0, 3) and list(nd) != notes:
+        ok = False
+    return notes, ok
+
+
+def text_mode(text):
+    import zlib
+    return zlib.crc32(text.encode("utf-8", "surrogatepass"))
+
+
 def show_note(d):
     return "p%d %d/%d c%d %s%s" % (d["p"], d["n"], d["d"], d["c"], chr(d["t"]), "" if d["k"] < 0 else "[%d]" % d["k"])
 
